@@ -10,7 +10,7 @@ open Atomman Atomman.C10
     uc    <via> unit arr [err <error data…>]       (with err: uc.model(value, unit, error=…), reply has eread)
     box   <via> unit <12 rationals: a b c origin>
     atoms <via> <natoms> <nprops> {<name> unit arr}* [sel <k> {<name> unit}*]   (selection = the prop_unit dict)
-    sys   <via> unit(box) <12 rationals> <3 pbc> <nsym> {sym|-}* <nmass> {mass|-}* <natoms> <nprops> {<name> unit arr}*
+    sys   <via> unit(box) <12 rationals> <3 pbc> <nsym> {sym|-}* <nmass> {mass|-}* <natoms> <nprops> {<name> unit arr}* [sel <k> {<name> unit}*]
     ec    <via> unit <crystal system> <mu|-> <K|-> <36 C>     (mu, K: Hill estimates, `-` when they raise)
     nest  <rank> <dims…> <data…>
     obj   <12 rationals> <natoms> <pos…> {warm | c2r p | r2c p | setv m | seto o | bread <via> unit <12 rationals>
@@ -346,6 +346,20 @@ def handleC10 (toks : List String) : String :=
                         ⟨n, props.map (fun (nm, _, arr) => (nm, arr))⟩⟩
                       reply via (systemModel fw bu.unit (props.map (fun (nm, u, _) => (nm, u.unit))) s)
                         (systemRead fr eps) jSys
+                    | some (props, "sel" :: k :: r6) =>
+                      -- System.model(prop_unit=…) with a selection of the properties, in the given order
+                      match k.toNat? with
+                      | none => err "format"
+                      | some k =>
+                        match pMany pSel k r6 with
+                        | some (sel, []) =>
+                          let (fw, fr) := facTabs (sel.map (fun (nm, u) => (nm, u, (⟨[], .flt []⟩ : Arr Rat))))
+                            [(bu.unit, bu.fW, bu.fR)]
+                          let s : SystemM Rat := ⟨⟨⟨⟨a, b, c⟩, ⟨d, e, f⟩, ⟨g, h, i⟩⟩, ⟨x, y, z⟩⟩, pbc, syms, masses,
+                            ⟨n, props.map (fun (nm, _, arr) => (nm, arr))⟩⟩
+                          reply via (systemModel fw bu.unit (sel.map (fun (nm, u) => (nm, u.unit))) s)
+                            (systemRead fr eps) jSys
+                        | _ => err "format"
                     | _ => err "format"
                   | _, _ => err "format"
                 | _ => err "format"
